@@ -79,9 +79,17 @@ def nanops_stream(res, rng, tier):
                 vals = [rng.choice(vals_f) if kind != "i8" else rng.choice([1, 2, -3, 4, 0]) for _ in range(L)]
             cases.append((kind, vals))
         cases.append(("f8", [None] * L))
+    # a piece whose integer sum equals the int64 null sentinel: two values of -2**62 next to each other, at every place
+    for L in range(3, maxlen + 1):
+        for i in range(L - 1):
+            vals = [rng.choice([1, 5, 7]) for _ in range(L)]
+            vals[i] = vals[i + 1] = -2**62
+            cases.append(("i8", vals))
     reqs, meta = [], []
     for kind, vals in cases:
         for name in ["nansum", "nanmean", "nanmin", "nanmax", "nanvar", "nanstd", "count"]:
+            if name in ("nanvar", "nanstd") and kind == "i8" and any(abs(v) > 2**30 for v in vals):
+                continue          # squares beyond int64: outside the claim
             if name in ("nanvar", "nanstd") and kind in ("i4", "u4") and any(abs(v) > 2**20 for v in vals):
                 continue          # the int64 sum of squares itself overflows there: outside the claim
             for nt in ([1, 2, 3, 4, 8] if tier == "quick" else [1, 2, 3, 4, 5, 6, 7, 8]):
